@@ -216,6 +216,16 @@ func init() {
 			pair := conOps[a].name + "+" + conOps[b].name
 			mc.Register("C20", "interleave-pairs/"+pair, "quick", func(x *mc.Cell) { c20Interleave(x, []int{a, b}, 1) })
 			mc.Register("C20", "interleave-pairs/"+pair, "thorough", func(x *mc.Cell) { c20Interleave(x, []int{a, b}, 2) })
+			if (conOps[a].name == "restart" && conOps[b].name == "restart") || (conOps[a].name == "open-pull" && conOps[b].name == "restart") {
+				// the triples that exposed the cleaned-up-channel hang in the free-running pass are part of the quick tier
+				mc.Register("C20", "interleave-triples/"+pair, "quick", func(x *mc.Cell) {
+					for c := b; c < n; c++ {
+						if conOps[c].name == "peer-cancels" || conOps[c].name == "close" {
+							c20Interleave(x, []int{a, b, c}, 1)
+						}
+					}
+				})
+			}
 			mc.Register("C20", "interleave-triples/"+pair, "thorough", func(x *mc.Cell) {
 				for c := b; c < n; c++ {
 					c20Interleave(x, []int{a, b, c}, 1)
